@@ -238,9 +238,9 @@ static thread_local long t_heap_live = 0;
 static bool g_trace_heap = false;
 extern "C" void __sanitizer_malloc_hook(const volatile void* p, size_t n) { t_heap_live++; if (g_trace_heap) fprintf(stderr, "  malloc %p %zu\n", (void*)p, n); }
 extern "C" void __sanitizer_free_hook(const volatile void* p) { t_heap_live--; if (g_trace_heap) fprintf(stderr, "  free %p\n", (void*)p); }
-// The default 256 MB quarantine makes every allocation touch fresh pages (5x slower here); 16 MB still
-// spans thousands of evaluations.  ASAN_OPTIONS in the environment overrides these defaults.
-extern "C" const char* __asan_default_options() { return "quarantine_size_mb=16:malloc_context_size=2"; }
+// The default 256 MB quarantine makes every allocation touch fresh pages (5x slower here); 2 MB still
+// spans hundreds of evaluations.  ASAN_OPTIONS in the environment overrides these defaults.
+extern "C" const char* __asan_default_options() { return "quarantine_size_mb=2:malloc_context_size=2"; }
 static thread_local std::string t_keybuf;
 
 struct Tier {
@@ -834,7 +834,7 @@ struct Runner {
 
   // lifetime facts after a step: the element objects of both vectors and both models are live,
   // nothing else is
-  Err lifetime_step(const Env& e, const Hist& h, const Op* op) {
+  Err lifetime_step(const Env& e, const Hist& h, const Op* op, bool per_element = true) {
     auto& reg = seq::registry();
     if (!reg.error.empty()) {
       if (reg.error == "use of an object that is not live") {
@@ -854,6 +854,7 @@ struct Runner {
       return mk("element objects outside [0,size) are still live after the operation (never destroyed)",
                 seq::fmt("%zu live objects, %zu expected", have, want));
     if (have < want) return mk("fewer live element objects than elements", seq::fmt("%zu live objects, %zu expected", have, want));
+    if (!per_element) return {};
     for (size_t i = 0; i < e.v->size(); i++)
       if (!reg.live.count(&(*e.v)[i])) return mk("an element inside [0,size) is not a live object");
     for (size_t i = 0; i < e.w->size(); i++)
@@ -938,7 +939,7 @@ struct Runner {
       }
       if (!out.content.bad() && expect_key) {
         if (!tainted) {
-          Err l = lifetime_step(e, h, nullptr);
+          Err l = lifetime_step(e, h, nullptr, false);
           if (l.bad()) out.content = mk("replay of a recorded history diverged", "lifetime: " + l.cls);
         }
         if (!out.content.bad() && key_of(e, tainted) != *expect_key)
@@ -1257,7 +1258,7 @@ int main(int argc, char** argv) {
     add_pass(3, A9, A9, A9, A9);
     add_pass(4, {0, 1, 2, 3}, {0, 1, 2, 3}, {0, 1, 2}, {0, 1, 2});
   } else {
-    add_pass(depth_override ? depth_override : 3, A6, A6, A6, A6);
+    add_pass(depth_override ? depth_override : 3, A6, A6, {0, 1, 2, 3}, {0, 1, 2, 3});
   }
 
   if (!replay_file.empty()) {
